@@ -45,11 +45,17 @@ def oracle(build, tlines):
             d = parse_ep(l)
             k = d["kind"]
             cnt[k] += 1
+            errs = d["errs"]
+            if k == "overflow_mt":
+                cnt["overflow_mt_%s" % ("lt8" if int(d["req"]) < 8 else "delta0" if d["delta"] == "0" else "ge8")] += 1
+                cnt["overflow_mt_%s" % ("pthread" if d["wkind"] == "0" else "direct")] += 1
+                if errs != [EFAULT]:
+                    fail("overflow_mt", "byte %s written at offset %s of a block of requested size %s (delta=%s) and freed through the cross-thread path (%s): reported %s, expected [EFAULT]"
+                         % (d["v"], d["req"], d["req"], d["delta"], "second pthread calling mi_free" if d["wkind"] == "0" else "direct mi_free_generic_mt", errs), l)
             if k == "overflow":
                 cnt["overflow_delta%s" % ("0" if d["delta"] == "0" else "1" if d["delta"] == "1" else ">1")] += 1
             if k == "link":
                 cnt["link_wkind%s" % d["wkind"]] += 1
-            errs = d["errs"]
             if k == "double" and errs != [EAGAIN]:
                 fail("double_free", "second free of a block of %s bytes (its page holds another live block) reported %s, expected [EAGAIN]" % (d["req"], errs), l)
             if k == "overflow" and errs != [EFAULT]:
@@ -135,7 +141,8 @@ def run(res, a):
     res.cov["distinct_nontrivial"] = len(distinct)
     res.cov["rule"] = ("two builds of harness/t_secure.c (MI_SECURE=4 release; MI_DEBUG=1). T ep: one API-level episode on a fresh heap = random malloc/free prefix, "
                        "ONE attack (second free of a block whose page holds another live block / one foreign byte at offset `requested size` with delta 0, 1, >16, other / "
-                       "first word of a freed block overwritten with random, 0, or a value decoding outside the page), expected codes [EAGAIN] / [EFAULT] / EFAULT when reached; "
+                       "first word of a freed block overwritten with random, 0, or a value decoding outside the page / overflow_mt: requested sizes 1..40, the overflowed block freed through the cross-thread path "
+                       "(a real second pthread calling mi_free, or mi_free_generic_mt directly), untouched blocks freed the same way must report nothing), expected codes [EAGAIN] / [EFAULT] / EFAULT when reached / [EFAULT]; "
                        "secure build only: 200-400 further malloc/free with a shadow table (no overlap with a live block, address = block start below capacity of a page in a heap region, "
                        "contents of live blocks unchanged). F op: page-level operation on a real page (internal functions called directly) replayed by the extracted Coq model from the dumped "
                        "initial page: error codes, returned block, capacity, used and the three lists (walked with the real mi_block_next) compared after every operation, inv_b evaluated while no link is forged, "
